@@ -77,9 +77,9 @@ def run(W, chk):
                    "unchecked or round-up arithmetic on epoch values: %s" % bad, "")
 
     # ---- config writes are validated
-    dur_i = TryOk(r"epoch_manager::helpers::validate_epoch_duration$")
     for which, vp, gen, now in (("instantiate", None, r"^msg\.epoch_config\.genesis_epoch$", NOW),
                                 ("execute", ("UpdateConfig",), r"^msg\.UpdateConfig\.epoch_config\.genesis_epoch$", NOW)):
+        dur_i = PredTrue("duration>=86400", rel(gen.replace("genesis_epoch", "duration"), ">=", r"^Const\(86400_u64\)$"))
         for cut in ([dur_i], [PredTrue("genesis>=now", rel(gen, ">=", now))]):
             pol = CutPolicy(cut)
             A = W.run("epoch_manager", which, vp, pol)
@@ -88,19 +88,16 @@ def run(W, chk):
             chk.expect(bool(pol.hits) and not cfg, "CUT-config-write", inst, "CONFIG.save unreachable without the guard",
                        "CONFIG.save reachable without `%s` (guard found: %s)" % (cut[0].name, bool(pol.hits)),
                        where(cfg[0]) if cfg else A.entry)
-    # only those two functions write CONFIG
+    # only instantiate and UpdateConfig write CONFIG (by entry point / variant, whatever the functions are called)
     writers = set()
-    for b in W.F.fns("epoch_manager"):
-        for blk in b.blocks:
-            t = blk["term"]
-            if t["k"] == "call" and re.search(r"cw_storage_plus::Item::<.*>::(save|update|remove)$", t.get("callee", "")):
-                writers.add(b.id)
-    chk.expect(writers <= {"epoch_manager::contract::instantiate", "epoch_manager::commands::update_config"} and writers,
-               "WHO-config-writers", "epoch_manager", "CONFIG written only by instantiate and update_config",
+    paths, _ = W.variant_paths("epoch_manager", "execute")
+    for (which, vp) in [("execute", p) for p in paths] + [("instantiate", None), ("migrate", None), ("query", None)]:
+        try:
+            X = W.run("epoch_manager", which, vp)
+        except Exception:
+            continue
+        if any(e.extra.get("item") == "CONFIG" for e in X.writes()):
+            writers.add("/".join(vp or (which,)))
+    chk.expect(writers == {"instantiate", "UpdateConfig"}, "WHO-config-writers", "epoch_manager", "CONFIG written only by instantiate and UpdateConfig",
                "CONFIG written by %s" % sorted(writers), "")
-
-    # ---- the duration validation itself
-    H = W.run_fn("epoch_manager::helpers::validate_epoch_duration")
-    ok = bool(find_rel(H.switches(), om(r"^epoch_duration$"), ">=", om(r"^Const\(86400_u64\)$")))
-    chk.expect(ok, "CONST-day", "validate_epoch_duration", "duration >= 86400 (DAY_IN_SECONDS)",
-               "validate_epoch_duration does not compare `duration >= 86400`", H.entry)
+    chk.ok("CONST-day", "duration bound", "both CONFIG writers are cut by `duration >= 86400` (see CUT-config-write)")
